@@ -90,6 +90,12 @@ func checkC01(c c01Case) verdict {
 		case 4:
 			*otp.DefaultTOTPParam = *param
 			param = otp.DefaultTOTPParam
+		case 5: // OTHER values installed as defaults; the explicit set is passed as it is and decides
+			*otp.DefaultHOTPParam = otp.Param{Digits: 8, Algorithm: otp.SHA256, Skew: 1, Period: 60}
+			*otp.DefaultTOTPParam = otp.Param{Digits: 9, Algorithm: otp.SHA512, Skew: 1, Period: 60}
+		case 6:
+			otp.DefaultHOTPParam = &otp.Param{Digits: 7, Algorithm: otp.SHA512, Skew: 3, Period: 7}
+			otp.DefaultTOTPParam = &otp.Param{Digits: 8, Algorithm: otp.SHA256, Skew: 2, Period: 45}
 		}
 	}
 	disturb(c.Before, secret)
@@ -167,7 +173,7 @@ func genC01Base(t *rapid.T) c01Case {
 		c.Algo = rapid.IntRange(0, 2).Draw(t, "algo")
 	}
 	if !c.NilParam && rapid.IntRange(0, 5).Draw(t, "viaQ") == 0 {
-		c.Via = rapid.IntRange(1, 4).Draw(t, "via")
+		c.Via = rapid.IntRange(1, 6).Draw(t, "via")
 	}
 	// the fields generation ignores: a window (also one validation would refuse) and a period, in a third of the cases
 	if !c.NilParam && rapid.IntRange(0, 2).Draw(t, "unusedQ") == 0 {
